@@ -613,7 +613,7 @@ def mutate(kind: str, spec, r):
 def _mutate(kind: str, spec, r):
     s = copy.deepcopy(spec)
     op = r.choice(["none", "type", "type", "type", "delete", "delete", "oversize", "enum", "oneof", "extra",
-                   "junk-root", "two", "number", "number", "apistr", "ghost", "ghost", "ghost", "deep"])
+                   "junk-root", "two", "number", "number", "apistr", "ghost", "ghost", "ghost", "deep", "prune", "prune"])
     if op == "none":
         return s, op
     if op == "two":
@@ -622,6 +622,16 @@ def _mutate(kind: str, spec, r):
         return s2, "two:" + t2
     if op == "junk-root" or not isinstance(s, dict):
         return r.choice(JUNK), "junk-root"
+    if op == "prune":
+        # a sparser definition: several optional parts left out (most stay schema-valid: `create` without `overlay`,
+        # no `create` / `update` / `locals` at all, a test case with fewer members, …)
+        for _ in range(r.randint(1, 5)):
+            dicts = [(p, v) for p, v in paths(s) if isinstance(v, dict) and v]
+            if not dicts:
+                break
+            p, d = r.choice(dicts)
+            del d[r.choice(list(d))]
+        return s, op
     ps = list(paths(s))
     if op == "ghost":
         # a key the code reads, put where the schema may not expect (or constrain) it, with a value of any type
@@ -1413,6 +1423,7 @@ def run(tier: str) -> int:
     t0 = time.time()
     run_sequences(ck, drv, 800 if quick else 12000, r)
     run_overlay_inputs(ck, drv, 150 if quick else 3000, r)
+    c14.report_setup_failures(ck, "C20")
     ck.notes.append(f"sequence stream: {time.time() - t0:.1f}s")
     return ck.finish(
         rule="expression stream: random CEL expressions of every syntactic shape (incl. index / call / member on "
